@@ -33,6 +33,23 @@ type Solver struct {
 	lastSat    bool
 	pendingPop bool
 	LastError  string
+
+	// portfolio: everything asserted since Reset is kept as text; a query the primary solver
+	// answers "unknown" is put to a second solver of another kind before it is given up
+	ctx        strings.Builder
+	fb         *Solver
+	noFallback bool
+	fromFb     bool
+	priUnknown int
+	Rescued    int
+	Respawns   int
+}
+
+func fallbackKind(kind string) string {
+	if strings.HasPrefix(kind, "cvc5") {
+		return "z3"
+	}
+	return "cvc5"
 }
 
 func solverArgs(kind string, timeoutMs int) (string, []string) {
@@ -82,6 +99,9 @@ func (s *Solver) send(txt string) {
 }
 
 func (s *Solver) Close() {
+	if s.fb != nil {
+		s.fb.Close()
+	}
 	s.send("(exit)\n")
 	s.in.Close()
 	done := make(chan struct{})
@@ -103,6 +123,7 @@ func (s *Solver) Reset() {
 	s.send("(push)\n")
 	s.depth = 1
 	s.em = NewEmitter()
+	s.ctx.Reset()
 }
 
 func (s *Solver) Assert(t *Term) {
@@ -111,8 +132,13 @@ func (s *Solver) Assert(t *Term) {
 		return
 	}
 	r := s.em.Ref(t)
-	s.send(s.em.Flush())
-	s.send("(assert " + r + ")\n")
+	s.sendCtx(s.em.Flush())
+	s.sendCtx("(assert " + r + ")\n")
+}
+
+func (s *Solver) sendCtx(txt string) {
+	s.ctx.WriteString(txt)
+	s.send(txt)
 }
 
 func (s *Solver) readLine() string {
@@ -129,7 +155,7 @@ func (s *Solver) Check(extra *Term) string {
 	t0 := time.Now()
 	defer func() { s.Time += time.Since(t0) }()
 	s.Queries++
-	if s.dead {
+	if s.dead && (s.noFallback || s.Respawns > 200 || !s.respawn(s.kind)) {
 		s.Errors++
 		return "unknown"
 	}
@@ -142,14 +168,38 @@ func (s *Solver) Check(extra *Term) string {
 	if extra != nil && !extra.IsTrue() {
 		// definitions are emitted before the push so they survive the pop
 		ref = s.em.Ref(extra)
-		s.send(s.em.Flush())
+		s.sendCtx(s.em.Flush())
 	}
 	s.send("(push)\n")
 	if ref != "" {
 		s.send("(assert " + ref + ")\n")
 	}
 	s.send("(check-sat)\n")
-	res := s.readAnswer()
+	res := s.timedAnswer()
+	s.fromFb = false
+	if res == "unknown" && !s.noFallback {
+		s.send("(pop)\n")
+		s.priUnknown++
+		if r2 := s.askFallback(ref); r2 != "unknown" {
+			s.Rescued++
+			res = r2
+			s.lastSat = res == "sat"
+			s.fromFb = s.lastSat
+			if res == "sat" {
+				s.Sat++
+			} else {
+				s.Unsat++
+			}
+			if s.priUnknown%3 == 0 {
+				// this kind of solver keeps failing on this job's queries: swap roles
+				s.respawn(fallbackKind(s.kind))
+			}
+			return res
+		}
+		s.lastSat = false
+		s.Unknown++
+		return res
+	}
 	s.lastSat = res == "sat"
 	if !s.lastSat {
 		s.send("(pop)\n")
@@ -164,6 +214,16 @@ func (s *Solver) Check(extra *Term) string {
 	default:
 		s.Unknown++
 	}
+	return res
+}
+
+// timedAnswer reads the check-sat answer under a wall-clock watchdog: a solver that does not
+// honour its own per-query limit is killed (the answer is then "unknown").
+func (s *Solver) timedAnswer() string {
+	p := s.cmd.Process
+	wd := time.AfterFunc(time.Duration(s.timeout)*time.Millisecond+5*time.Second, func() { p.Kill() })
+	res := s.readAnswer()
+	wd.Stop()
 	return res
 }
 
@@ -201,6 +261,77 @@ func (s *Solver) readAnswer() string {
 	}
 }
 
+// askFallback puts the current context plus the extra assertion to the second solver.
+func (s *Solver) askFallback(ref string) string {
+	if s.fb == nil || s.fb.dead {
+		fb, err := NewSolver(fallbackKind(s.kind), s.timeout)
+		if err != nil {
+			return "unknown"
+		}
+		fb.noFallback = true
+		s.fb = fb
+	}
+	fb := s.fb
+	fb.Done()
+	fb.send("(push)\n")
+	fb.send(s.ctx.String())
+	if ref != "" {
+		fb.send("(assert " + ref + ")\n")
+	}
+	fb.send("(check-sat)\n")
+	t0 := time.Now()
+	res := fb.timedAnswer()
+	fb.Time += time.Since(t0)
+	fb.Queries++
+	fb.lastSat = res == "sat"
+	fb.em = s.em
+	if res == "sat" {
+		fb.pendingPop = true
+	} else {
+		fb.send("(pop)\n")
+	}
+	return res
+}
+
+// respawn replaces the primary process (dead, or one that keeps timing out on this job's
+// queries) by a fresh one of the given kind and replays the current context into it.
+func (s *Solver) respawn(kind string) bool {
+	bin, args := solverArgs(kind, s.timeout)
+	cmd := exec.Command(bin, args...)
+	in, err := cmd.StdinPipe()
+	if err != nil {
+		return false
+	}
+	out, err := cmd.StdoutPipe()
+	if err != nil {
+		return false
+	}
+	cmd.Stderr = cmd.Stdout
+	if err := cmd.Start(); err != nil {
+		return false
+	}
+	s.in.Close()
+	s.cmd.Process.Kill()
+	go s.cmd.Wait()
+	if kind != s.kind && s.fb != nil {
+		s.fb.Close()
+		s.fb = nil
+	}
+	s.kind = kind
+	s.cmd, s.in, s.out = cmd, in, bufio.NewReaderSize(out, 1<<20)
+	s.dead = false
+	s.Respawns++
+	if strings.HasPrefix(s.kind, "cvc5") {
+		s.send("(set-logic ALL)\n")
+	}
+	s.send("(set-option :produce-models true)\n")
+	s.send("(push)\n")
+	s.depth = 1
+	s.pendingPop = false
+	s.send(s.ctx.String())
+	return !s.dead
+}
+
 func (s *Solver) readAnswerRaw() string {
 	for i := 0; i < 1000; i++ {
 		l := s.readLine()
@@ -218,6 +349,9 @@ func (s *Solver) Model(names []string) map[string]uint64 {
 	m := map[string]uint64{}
 	if !s.lastSat || len(names) == 0 {
 		return m
+	}
+	if s.fromFb {
+		return s.fb.Model(names)
 	}
 	// only ask for declared vars
 	var ask []string
@@ -283,6 +417,10 @@ func (s *Solver) readSexp() string {
 
 // Done pops the scope left open by a sat Check.
 func (s *Solver) Done() {
+	if s.fromFb {
+		s.fb.Done()
+		s.fromFb = false
+	}
 	if s.pendingPop {
 		s.send("(pop)\n")
 		s.pendingPop = false
